@@ -250,14 +250,23 @@ func c18Case(c *Ctx, i int64) {
 			if ncalls > 40 && k%(ncalls/20+1) != 0 && k != ncalls {
 				continue
 			}
-			for _, withData := range []bool{false, true} {
+			for variant := 0; variant < 3; variant++ {
+				withData := variant == 1
 				src := &crSource{Source: &gen.Source{Data: data, FailAt: k, FailData: withData, Budget: 100000}}
+				if variant == 2 {
+					// a transient failure (only this call fails, with no data) of a source that makes short reads:
+					// the block being filled already holds data when the error arrives
+					src.Source.FailOnce = true
+					src.Source.Mode = gen.ReadRandom
+					src.Source.G = gi
+					src.Source.MaxChunk = 10000
+				}
 				res := crRead(c, src, o, func(j int) int { return []int{4096, 7, 100000}[j%3] })
 				c.Count("source_fault_points", 1)
 				if res.panicky {
 					continue
 				}
-				det := map[string]interface{}{"opts": o.String(), "srclen": len(data), "fail_at_source_call": k, "with_data": withData}
+				det := map[string]interface{}{"opts": o.String(), "srclen": len(data), "fail_at_source_call": k, "with_data": withData, "transient": variant == 2}
 				var want *gen.InjErr
 				if len(src.Errs) > 0 {
 					want = src.Errs[0]
@@ -274,7 +283,7 @@ func c18Case(c *Ctx, i int64) {
 					// io.ReadFull; the persistent fault then shows up with a later call's error value)
 					c.Violation("source-error-replaced", fmt.Sprintf("the source failed at its call %d with %v but the compressing reader returned %v", k, want, res.err), det)
 				}
-				c.Cell(fmt.Sprintf("%s/src%d/source-fault/data=%v", o.String(), len(data), withData))
+				c.Cell(fmt.Sprintf("%s/src%d/source-fault/data=%v/transient=%v", o.String(), len(data), withData, variant == 2))
 			}
 		}
 	}
